@@ -161,7 +161,10 @@ class Tr:
         if isinstance(node, ast.Name) and node.id in env and env[node.id].ty == 'nat':
             return env[node.id].a
         if isinstance(node, ast.BinOp) and isinstance(node.op, ast.Mult):
-            return f'({self.nat_expr(node.left, env)} * {self.nat_expr(node.right, env)})'
+            a, b = self.nat_expr(node.left, env), self.nat_expr(node.right, env)
+            if b.isdigit() and not a.isdigit():
+                a, b = b, a                          # a literal factor is written first
+            return f'({a} * {b})'
         raise Untranslatable('not a natural number: ' + ast.dump(node)[:80])
 
     def num(self, node, env):
@@ -403,7 +406,7 @@ class Tr:
             if self.cont is None:
                 raise Untranslatable('continue outside the loop')
             return self.cont(env, ind)
-        if isinstance(s, ast.Assert):
+        if isinstance(s, (ast.Assert, ast.Pass)):
             return self.block(rest, env, ind, k)      # `assert match is not None  # mypy`
         if isinstance(s, ast.If):
             special = self.special_if(s, rest, env, ind, k)
@@ -601,7 +604,7 @@ def tr_time_period(timeunits):
         if not stmts:
             return pad + '.ok none\n'
         s, rest = stmts[0], stmts[1:]
-        if isinstance(s, ast.Expr) and isinstance(s.value, ast.Constant):
+        if isinstance(s, ast.Pass) or (isinstance(s, ast.Expr) and isinstance(s.value, ast.Constant)):
             return block(rest, cls, val, ind)
         if isinstance(s, ast.If):
             r = cls_test(s.test, cls)
